@@ -105,3 +105,12 @@ pub use local_manual::{
     EmbeddedLocalManualResetEvent, EmbeddedLocalManualResetEventRef, LocalManualResetEvent,
 };
 pub use manual::{EmbeddedManualResetEvent, EmbeddedManualResetEventRef, ManualResetEvent};
+
+// Verification hook (H6): named yield points for native replay of model-found schedules. The module
+// body lives outside the repository; it exists only under `--cfg folo_verif`.
+#[cfg(folo_verif)]
+#[doc(hidden)]
+#[allow(warnings, clippy::all, clippy::pedantic, clippy::nursery, clippy::restriction)]
+pub mod folo_verif_hooks {
+    include!(concat!(env!("FOLO_VERIF_DIR"), "/kani/events/hooks.rs"));
+}
